@@ -60,6 +60,10 @@ Definition marker_report_size (dv : N) (p : path) : N :=
   attr_data_size dv p false 3.
 Definition elem_report_size (dv : N) (p : path) (len : N) : N :=
   attr_data_size dv p true (str_ctx len).
+(** what a handler has written of an element report when it finds the index out of
+    range: [ReadReply::with_dataver] opens the report and writes data version and path *)
+Definition probe_size (dv : N) (p : path) : N :=
+  1 + 2 + ctx_uint dv + attr_path_size p true.
 
 (** EventReportIB { EventDataIB { path, number, priority, system timestamp, data } } *)
 Definition event_report_size (p : path) (num prio ts len : N) : N :=
@@ -112,9 +116,10 @@ Definition tsum (l : list token) : N := sum_with tsize l.
 (** the expanded read: one entry per attribute the expander yields *)
 Inductive item :=
 | IOne (a : atom)                                    (* non-array attribute, or a status *)
-| IArr (p : path) (whole marker : N) (elems : list N).
+| IArr (p : path) (whole marker : N) (elems : list N) (probe : N).
       (* array attribute: size of the report with the complete list, of the
-         empty-list report, and of the report of each element *)
+         empty-list report, of the report of each element, and of the report
+         header the handler writes before it rejects the index past the end *)
 
 Record ev := mkEv { ev_num : N; ev_size : N; ev_sel : bool }.
       (* [ev_sel]: matches the requested paths, the event filters and the access check *)
@@ -243,15 +248,31 @@ Fixpoint write_elems (n : nat) (c : cfg) (p : path) (idx : N) (elems : list N) (
             (write_elems n c p (idx + 1) rest)
   end.
 
+(** The read of index [len] by which [send_array_items] finds the end of the list
+    ([ConstraintError]).  The handler opens the report before it looks at the index,
+    so without room for [sz] bytes the attempt ends in NoSpace like any other: the
+    chunk is sent and the read repeated.  Nothing stays in the buffer (rewind). *)
+Fixpoint probe_end (n : nat) (c : cfg) (sz : N) (s : st) : r :=
+  if pos s + sz <=? room s then Go s
+  else if pos s =? fresh s then Halt OStatus s
+  else match n with
+       | O => Halt OFuel s
+       | S n' =>
+           match send c KAttrs s with
+           | None => Halt OError s
+           | Some s1 => probe_end n' c sz s1
+           end
+       end.
+
 Definition do_item (n : nat) (c : cfg) (it : item) (s : st) : r :=
   match it with
   | IOne a => write_atom n c KAttrs a s
-  | IArr p whole marker elems =>
+  | IArr p whole marker elems probe =>
       match put (TAtom (AWhole p whole)) s with
       | Some s' => Go s'
       | None =>
-          rbind (write_atom n c KAttrs (AMarker p marker) s)
-                (write_elems n c p 0 elems)
+          rbind (write_atom n c KAttrs (AMarker p marker) s) (fun s1 =>
+          rbind (write_elems n c p 0 elems s1) (probe_end n c probe))
       end
   end.
 
